@@ -478,6 +478,9 @@ def probe_moz_setters(ctx, res):
                      observed=[o, o2])
     elif "C15-F4" in ctx.known:
         res.notes.append("C15-F4 no longer reproduces: the X_MOZ_LASTACK setter/getter round trip works")
+    elif o != S.utc_instant(datetime(2020, 6, 10, 8, 0, tzinfo=timezone.utc)) or isinstance(o2, list):
+        res.fail("C15: X_MOZ_LASTACK set through its setter reads back as another instant, or Alarms(component) fails",
+                 "ev.X_MOZ_LASTACK = utc datetime", observed=[o, o2])
 
 
 def run(ctx, res):
